@@ -32,6 +32,8 @@ class C01(framework.PropertyCheck):
                 # the file is read the same whatever was loaded (and unloaded again) before it: another file that uses the same
                 # identifier codes with other widths and values has come and gone
                 c['history'] = rng.randrange(1 << 30)
+            if k % 5 == 2 and k % 2:
+                c['unload_first'] = True       # an id that is not loaded has been "unloaded" before the file is loaded
             yield c
         if tier == 'thorough':
             import itertools
@@ -74,6 +76,8 @@ class C01(framework.PropertyCheck):
                 # the other file was loaded under the very same id, read, and unloaded
                 steps = [('loadvcd', 't0', gen_trace.render(aux, random.Random(case['history']))), ('eval', 'eorg', '(list other.o0 MAX-INDEX)'),
                          ('unload', 't0'), steps[0], steps[1]]
+        if case.get('unload_first'):
+            steps = [('unload', 'nosuch9')] + steps
         names = den['signals']
         # every signal is read directly and, from the index before, through a relative read that lands on this index
         q = '(list INDEX TS ' + ' '.join(f'(get {qs(n)})' for n in names) + ')'
@@ -95,6 +99,8 @@ class C01(framework.PropertyCheck):
         den = gen_trace.denote(case['vf'])
         names = den['signals']
         n = len(den['timestamps'])
+        if case.get('unload_first'):
+            iobs = iobs[1:]
         if case.get('history') is not None:
             if case['history'] % 2:
                 if len(iobs) < 4 or iobs[0] != ('ok',) or iobs[3] != ('ok',):
